@@ -127,6 +127,14 @@ func (reg RegionAxisCoordinates) evaluate(coord Coord) float32 {
 		return 1.
 	}
 
+	// the specification (and Harfbuzz) ignore an invalid axis
+	if start > peak || peak > end {
+		return 1.
+	}
+	if start < 0 && end > 0 && peak != 0 {
+		return 1.
+	}
+
 	if coord <= start || end <= coord {
 		return 0.
 	}
